@@ -79,9 +79,54 @@ def _encode(doc, form):
 REF_DOC = '- &r [1]\n- *r\n- !!str 2\n'
 
 
+class PathLoader(yaml.SafeLoader):
+    """a loader / dumper pair with path resolvers (their match stacks live between descend and ascend)"""
+
+
+class PathDumper(yaml.SafeDumper):
+    pass
+
+
+PathLoader.add_path_resolver('!root', [])
+PathLoader.add_path_resolver('!item', ['items', None], dict)
+PathLoader.add_constructor('!root', yaml.SafeLoader.construct_yaml_map)
+PathLoader.add_constructor('!item', yaml.SafeLoader.construct_yaml_map)
+PathDumper.add_path_resolver('!root', [])
+PathDumper.add_path_resolver('!item', ['items', None], dict)
+PATH_DOC = 'items:\n- {a: 1}\n- {b: 2}\nname: x\n'
+
+
+def _path_reference():
+    node = yaml.compose(PATH_DOC, Loader=PathLoader)
+    tags = (node.tag, [v.tag for k, v in node.value if k.value == 'items'][0])
+    items = [v for k, v in node.value if k.value == 'items'][0]
+    out = yaml.serialize(node, Dumper=PathDumper)
+    return (node.tag, [x.tag for x in items.value], out)
+
+
+_PATH_REF = _path_reference()        # taken once, at import, on a fresh library state
+
+
 def _reference_ok():
     r = yaml.safe_load(REF_DOC)
-    return r == [[1], [1], '2'] and r[0] is r[1] and yaml.safe_dump(r) == '- &id001\n  - 1\n- *id001\n- \'2\'\n'
+    if not (r == [[1], [1], '2'] and r[0] is r[1] and yaml.safe_dump(r) == '- &id001\n  - 1\n- *id001\n- \'2\'\n'):
+        return False
+    return _path_reference() == _PATH_REF
+
+
+def _read_api(api, stream):
+    if api == 0:
+        list(yaml.safe_load_all(stream))
+    elif api == 1:
+        list(yaml.scan(stream))
+    elif api == 2:
+        list(yaml.parse(stream))
+    elif api == 3:
+        list(yaml.compose_all(stream))
+    elif api == 4:
+        yaml.load(stream, Loader=yaml.FullLoader)
+    else:
+        list(yaml.load_all(stream, Loader=PathLoader))
 
 
 def read_fault(di: int, form: int, big: bool, k: int, kind: int, api: int) -> str:
@@ -93,9 +138,10 @@ def read_fault(di: int, form: int, big: bool, k: int, kind: int, api: int) -> st
     with untraced():
         before = global_snapshot()
     # the fault-free number of reads
+    # (of the same API function: yaml.load stops at a second document with its own error)
     probe = FaultyIn(data, step, -1, None)
     try:
-        list(yaml.safe_load_all(probe))
+        _read_api(api, probe)
     except yaml.YAMLError:
         pass
     nreads = probe.calls
@@ -108,16 +154,7 @@ def read_fault(di: int, form: int, big: bool, k: int, kind: int, api: int) -> st
     stream = FaultyIn(data, step, fail_at, exc)
     got = None
     try:
-        if api == 0:
-            list(yaml.safe_load_all(stream))
-        elif api == 1:
-            list(yaml.scan(stream))
-        elif api == 2:
-            list(yaml.parse(stream))
-        elif api == 3:
-            list(yaml.compose_all(stream))
-        else:
-            yaml.load(stream, Loader=yaml.FullLoader)
+        _read_api(api, stream)
     except BaseException as e:   # noqa
         got = e
     reach()
@@ -174,8 +211,10 @@ def write_fault(vi: int, k: int, on_flush: bool, kind: int, api: int, many: bool
             yaml.safe_dump_all(docs, out)
         elif api == 1:
             yaml.dump_all(docs, out, default_flow_style=True, explicit_start=True)
-        else:
+        elif api == 2:
             yaml.serialize_all([yaml.compose(yaml.safe_dump(v))] * len(docs), out)
+        else:
+            yaml.dump_all(docs, out, Dumper=PathDumper)
     with untraced():
         before = global_snapshot()
     ok_out = FaultyOut(-1, -1, None)
@@ -291,16 +330,16 @@ def jobs(tier):
         for form in range(3):
             js.append(Job('read/doc%d/form%d' % (di, form), read_fault,
                           [lambda di, form, big, k, kind, api, _d=di, _f=form: di == _d and form == _f and 0 <= k <= 130 and 0 <= kind < NKINDS and
-                           (api == 0 if q else 0 <= api <= 4) and (big if q else True)],
+                           ((api == 0 or api == 5) if q else 0 <= api <= 5) and (big if q else True)],
                           budget=250 if q else 1500, exhaust=q,
                           bounds='document %d as %s stream: every read() index x %d exception kinds%s' % (
                               di, ['text', 'UTF-8', 'UTF-16'][form], NKINDS, ' (7-unit reads, safe_load_all)' if q else ' x 2 read sizes x 5 API functions')))
     js.append(Job('read/first-reads', read_fault,
-                  [lambda di, form, big, k, kind, api: 0 <= di <= 2 and 0 <= form <= 2 and not big and 0 <= k <= 3 and 0 <= kind < NKINDS and 0 <= api <= 4],
+                  [lambda di, form, big, k, kind, api: 0 <= di <= 2 and 0 <= form <= 2 and not big and 0 <= k <= 3 and 0 <= kind < NKINDS and 0 <= api <= 5],
                   budget=250, bounds='1-unit reads: the first four read() calls (encoding detection, first refills) x 3 documents x 3 forms x 5 API functions x %d exception kinds' % NKINDS))
     for vi in range(len(VALUES)):
         js.append(Job('write/value%d' % vi, write_fault,
-                      [lambda vi, k, on_flush, kind, api, many, _v=vi: vi == _v and 0 <= k <= 140 and 0 <= kind < NKINDS and (api == 0 if q else 0 <= api <= 2) and
+                      [lambda vi, k, on_flush, kind, api, many, _v=vi: vi == _v and 0 <= k <= 140 and 0 <= kind < NKINDS and ((api == 0 or api == 3) if q else 0 <= api <= 3) and
                        (not many if q else True)],
                       budget=250 if q else 1500, exhaust=q,
                       bounds='value %d: every write() index and every flush() index x %d exception kinds%s' % (vi, NKINDS, '' if q else ' x 3 API functions x 1-2 documents')))
